@@ -116,6 +116,27 @@ impl Transaction {
     #[verifier::external_body]
     pub fn locate(&self, storage: &mut Storage, address: Address, buffer: &mut TraversalBuffer) -> (r: Result<Option<Location>, ClientError>) ensures r is Err ==> r->Err_0 is Storage { unimplemented!() }
 }
+pub struct FactIndex { pub _p: () }
+pub struct RuntimeBuffers { pub traversal: TraversalBuffers, pub braid: BraidBuffer }
+pub struct TraversalBuffers { pub primary: TraversalBuffer }
+pub struct BraidBuffer { pub _p: () }
+pub struct MakeSpill { pub _p: () }
+/// choose_policy / evaluate_braid (braid of the two parents: C01–C03 units) do not touch the transaction
+#[verifier::external_body]
+fn choose_policy<'a>(storage: &Storage, policy_store: &'a PolicyStore, left: Location, right: Location) -> (r: Result<(&'a Policy, PolicyId), ClientError>)
+    ensures r is Err ==> r->Err_0 is Storage
+{ unimplemented!() }
+#[verifier::external_body]
+fn evaluate_braid(storage: &mut Storage, heads: &[Location], sink: &mut Sink, policy: &Policy, traversal: &mut TraversalBuffer, braid_buf: &mut BraidBuffer, make_spill: &MakeSpill)
+    -> (r: Result<(FactIndex, Location), ClientError>)
+    ensures r is Err ==> r->Err_0 is Storage
+{ unimplemented!() }
+impl Storage {
+    #[verifier::external_body]
+    pub fn new_merge_perspective(&mut self, left: Location, right: Location, lca: Location, policy_id: PolicyId, braid: FactIndex) -> (r: Result<Perspective, ClientError>)
+        ensures r is Ok ==> r->Ok_0.cmds@.len() == 0, r is Err ==> r->Err_0 is Storage
+    { unimplemented!() }
+}
 pub assume_specification<'a, T: Copy>[ Option::<&'a T>::copied ](o: Option<&'a T>) -> (r: Option<T>)
     ensures o is Some ==> r == Some(*o->Some_0), o is None ==> r is None;
 impl From<PolicyError> for ClientError { #[verifier::external_body] fn from(e: PolicyError) -> (r: Self) ensures r == ClientError::Policy { ClientError::Policy } }
@@ -169,6 +190,28 @@ ADD_SINGLE = FnSpec(FILE, 'add_single', IMPL, attrs='#[verifier::spinoff_prover]
             r matches Err(ClientError::Policy) ==> final(self).tips() =~= old(self).tips(),
 """)
 
+ADD_MERGE = FnSpec(FILE, 'add_merge', IMPL, attrs='#[verifier::spinoff_prover]',
+    sig_rewrites=[('fn add_merge<F, MS>(', 'fn add_merge(', 1, 'R6'),
+                  ('storage: &mut <SP as StorageProvider>::Storage', 'storage: &mut Storage', 1, 'R6'),
+                  ('policy_store: &mut PS', 'policy_store: &mut PolicyStore', 1, 'R6'),
+                  ('sink: &mut impl Sink<PS::Effect>', 'sink: &mut Sink', 1, 'R6'),
+                  ('command: &impl Command', 'command: &Command', 1, 'R6'),
+                  ('buffers: &mut RuntimeBuffers<SP::Segment>', 'buffers: &mut RuntimeBuffers', 1, 'R6'),
+                  ('make_spill: &MS', 'make_spill: &MakeSpill', 1, 'R6'),
+                  ('(left, right): (Address, Address)', 'lr: (Address, Address)', 1, 'R24 (tuple-pattern parameter; bound by a let at entry)'),
+                  ("""where
+        F: Spill,
+        MS: Fn() -> Result<F, StorageError>,""", '', 1, 'R6')],
+    rewrites=[('evaluate_braid::<_, PS, F, MS>(', 'evaluate_braid(', 1, 'R6 (turbofish on the abstract braid)'),
+              ('if let Some(p) = Option::take(&mut self.perspective) {', 'let (left, right) = lr; if let Some(p) = Option::take(&mut self.perspective) {', 1, 'R24')],
+    contract="""
+        requires old(self).wf(),
+            !old(self).heads@.contains_key(command.cid) && old(self).phead != Some(command.cid),
+        ensures
+            // the merge command replaces both of its parents in the tip set
+            r is Ok ==> final(self).wf() && final(self).tips() =~= old(self).tips().remove(lr.0.id).remove(lr.1.id).insert(command.cid),
+""")
+
 
 def build():
-    return build_unit(PRELUDE, [('impl Transaction', [FLUSH, GET_P, ADD_SINGLE])])
+    return build_unit(PRELUDE, [('impl Transaction', [FLUSH, GET_P, ADD_SINGLE, ADD_MERGE])])
